@@ -130,6 +130,22 @@ impl Table for Srat {
     fn walk(&self, img: &[u8]) -> Result<Vec<Ent>, String> {
         super::madt::tl8_walk(img, 48)
     }
+    /// memory ranges related to the previous one: adjacent (base = previous base + length), identical, overlapping,
+    /// same domain / other domain, with equal and different flags
+    fn sweeps(&self, _level: u8) -> Vec<(String, Vec<Op>)> {
+        let m = |pd: u64, base: u64, len: u64, flags: u16| Op { k: S_MEM, shape: flags, fill: Fill::b(0).with(0, pd).with(1, base).with(2, len) };
+        let mut v = vec![];
+        for (b, l) in [(0u64, 0x8000_0000u64), (0x1_0000_0000, 0x4000_0000), (0xa_0000, 0x6_0000), (0xffff_f000, 0x2000)] {
+            for (fa, fb) in [(1u16, 1u16), (1, 3), (7, 1), (0, 0)] {
+                v.push((format!("adjacent[{:#x}+{:#x},{}{}]", b, l, fa, fb), vec![m(0, b, l, fa), m(0, b + l, l, fb), m(0, b + 2 * l, 1, fa), m(1, b + 2 * l + 1, l, fb)]));
+            }
+            v.push((format!("identical[{:#x}]", b), vec![m(3, b, l, 1), m(3, b, l, 1), m(3, b, l, 1)]));
+            v.push((format!("overlap[{:#x}]", b), vec![m(3, b, l, 1), m(3, b + l / 2, l, 1), m(4, b, l / 2, 1)]));
+            v.push((format!("adjacent-descending[{:#x}]", b), vec![m(0, b + l, l, 1), m(0, b, l, 1)]));
+            v.push((format!("adjacent-after-other-kind[{:#x}]", b), vec![m(0, b, l, 1), Op::new(S_GI_PCI, 1, 2), m(0, b + l, l, 1), Op::new(S_RINTC, 3, 2), m(0, b + 2 * l, l, 1)]));
+        }
+        v
+    }
     fn fields(&self, k: u8, _s: u16) -> Vec<FT> {
         use FT::*;
         match k {
@@ -233,8 +249,9 @@ pub const H_MPD: u8 = 0;
 pub const H_SLL: u8 = 1;
 pub const H_MSC: u8 = 2;
 
-pub fn sll_dims(shape: u16) -> (usize, usize) {
-    ((shape & 15) as usize, ((shape >> 4) & 15) as usize)
+/// matrix dimensions: from the shape bits, or from the explicit size overrides of a sweep program
+pub fn sll_dims(f: &Fill, shape: u16) -> (usize, usize) {
+    (f.size().unwrap_or((shape & 15) as usize), f.size2().unwrap_or(((shape >> 4) & 15) as usize))
 }
 pub fn sll_shape(i: usize, t: usize, opts: u16) -> u16 {
     (i as u16) | ((t as u16) << 4) | (opts << 8)
@@ -250,7 +267,7 @@ pub fn sll_tgt(f: &Fill, j: usize) -> u32 {
 }
 pub fn real_sll_new(f: &Fill, shape: u16) -> hmat::SystemLocality {
     use hmat::{DataType as D, LocalityType as L, MinTransferSize as M};
-    let (ni, nt) = sll_dims(shape);
+    let (ni, nt) = sll_dims(f, shape);
     let lt = [L::Memory, L::FirstLevelCache, L::SecondLevelCache, L::ThirdLevelCache].into_iter().nth(f.e(0, 4)).unwrap();
     let dt = [D::AccessLatency, D::ReadLatency, D::WriteLatency, D::AccessBandwidth, D::ReadBandwidth, D::WriteBandwidth][f.e(1, 6)];
     let mt = [
@@ -270,7 +287,7 @@ pub fn real_sll_new(f: &Fill, shape: u16) -> hmat::SystemLocality {
     hmat::SystemLocality::new(lt, dt, mt, f.u64(3), ni, nt)
 }
 pub fn real_sll(f: &Fill, shape: u16) -> hmat::SystemLocality {
-    let (ni, nt) = sll_dims(shape);
+    let (ni, nt) = sll_dims(f, shape);
     let mut s = real_sll_new(f, shape);
     if shape & 0x100 != 0 {
         s.non_sequential_transfers();
@@ -294,7 +311,7 @@ pub fn real_sll(f: &Fill, shape: u16) -> hmat::SystemLocality {
 /// ACPI 6.5 table 5.146: type 1, reserved(2), length(4), flags(1), data type(1), min transfer size(1), reserved(1),
 /// initiators(4), targets(4), reserved(4), entry base unit(8), initiator list, target list, entries[i*T + j]
 pub fn ref_sll_with(w: &mut W, f: &Fill, shape: u16, inits: &[u32], tgts: &[u32], cells: &[u16]) {
-    let (ni, nt) = sll_dims(shape);
+    let (ni, nt) = sll_dims(f, shape);
     let mut flags = f.e(0, 4) as u8;
     if shape & 0x100 != 0 {
         flags |= 0x20; // bit 5: non-sequential transfers
@@ -315,7 +332,7 @@ pub fn ref_sll_with(w: &mut W, f: &Fill, shape: u16, inits: &[u32], tgts: &[u32]
     }
 }
 pub fn ref_sll(w: &mut W, f: &Fill, shape: u16) {
-    let (ni, nt) = sll_dims(shape);
+    let (ni, nt) = sll_dims(f, shape);
     let inits: Vec<u32> = (0..ni).map(|i| sll_init(f, i)).collect();
     let tgts: Vec<u32> = (0..nt).map(|j| sll_tgt(f, j)).collect();
     let mut cells = vec![];
@@ -326,7 +343,11 @@ pub fn ref_sll(w: &mut W, f: &Fill, shape: u16) {
     }
     ref_sll_with(w, f, shape, &inits, &tgts, &cells);
 }
+pub fn msc_count(f: &Fill, shape: u16) -> u16 {
+    f.size().map(|n| n as u16).unwrap_or(shape)
+}
 pub fn real_msc(f: &Fill, n: u16) -> hmat::MemorySideCache {
+    let n = msc_count(f, n);
     use hmat::{Associativity as A, CacheLevel as C, WritePolicy as P};
     let lv = |i: usize| [C::None, C::One, C::Two, C::Three].into_iter().nth(i).unwrap();
     let mut m = hmat::MemorySideCache::new(
@@ -353,7 +374,7 @@ pub fn hmat_ref_entry(w: &mut W, op: &Op) {
         H_SLL => ref_sll(w, f, op.shape),
         H_MSC => {
             // type 2, reserved(2), length, memory PD(4), reserved(4), cache size(8), attributes(4), reserved(2), n handles(2), handles
-            let n = op.shape as usize;
+            let n = msc_count(f, op.shape) as usize;
             let attr = (f.e(2, 4) as u32) | ((f.e(3, 4) as u32) << 4) | ((f.e(4, 3) as u32) << 8) | ((f.e(5, 3) as u32) << 12) | ((f.u16(6) as u32) << 16);
             w.u16(2).u16(0).u32((32 + 2 * n) as u32).u32(f.u32(0)).u32(0).u64(f.u64(1)).u32(attr).u16(0).u16(n as u16);
             for i in 0..n {
@@ -390,7 +411,7 @@ impl Table for Hmat {
             v.push(Op::new(H_MSC, (n % 3) as u16, *f));
             v.push(Op::new(H_MSC, ((n + 2) % 3) as u16, *f));
         }
-        if !_h.iter().any(|o| (o.k == H_MSC && o.shape >= 100) || (o.k == H_SLL && sll_dims(o.shape).0 > 8)) {
+        if !_h.iter().any(|o| (o.k == H_MSC && o.shape >= 100) || (o.k == H_SLL && sll_dims(&o.fill, o.shape).0 > 8)) {
             // structures longer than 255 bytes
             v.push(Op::new(H_MSC, 120, fills(level)[0]));
             v.push(Op::new(H_SLL, sll_shape(9, 10, 1), fills(level)[0]));
@@ -463,6 +484,28 @@ impl Table for Hmat {
             o += len;
         }
         Ok(v)
+    }
+    fn sweeps(&self, level: u8) -> Vec<(String, Vec<Op>)> {
+        use crate::fill::{SX, SZ};
+        let mut v = vec![];
+        let mpd = Op::new(H_MPD, 0, 2);
+        // every SMBIOS handle count 0..=140 (structure sizes 32..312, 256 exactly at 112)
+        for n in 0..=140u64 {
+            let m = Op { k: H_MSC, shape: 0, fill: Fill::b(if n % 2 == 0 { 2 } else { 1 }).with(SZ, n) };
+            v.push((format!("msc[{}]", n), vec![mpd, m, mpd]));
+        }
+        // every matrix shape of a grid: structure sizes and cell counts across 256, 512, 1024
+        let g: usize = if level <= 1 { 34 } else { 48 };
+        for i in 0..=g {
+            for t in 0..=g {
+                if level <= 1 && i > 6 && t > 6 && (i * t) % 3 != 2 && i * t != 256 && !(250..=290).contains(&(i * t)) && !(500..=530).contains(&(i * t)) && !(1010..=1040).contains(&(i * t)) {
+                    continue;
+                }
+                let sl = Op { k: H_SLL, shape: sll_shape(0, 0, ((i + t) % 4) as u16), fill: Fill::b(2).with(SZ, i as u64).with(SX, t as u64) };
+                v.push((format!("sll[{}x{}]", i, t), vec![mpd, sl, Op::new(H_MSC, 1, 2)]));
+            }
+        }
+        v
     }
     fn summary(&self, img: &[u8], ents: &[Ent]) -> Vec<u64> {
         let mut v = vec![];
